@@ -280,6 +280,23 @@ class LinearPolynomial(BaseDeferred):
         return LinearPolynomial[int]({key: -value for key, value in self.coeffs.items()}, -self.constant_term)
 
     def _wait(self):
+        # First substitute what is already known without waiting for anything (in particular a
+        # settled promise stands for its value), so that terms which cancel are never awaited
+        new_coeffs = []
+        new_constant_term = self.constant_term
+        for key, value in self.coeffs.items():
+            key = key.get_current_best_estimate()
+            if isinstance(key, LinearPolynomial):
+                new_coeffs += [(key1, value1 * value) for key1, value1 in key.coeffs.items()]
+                new_constant_term += key.constant_term * value
+            elif isinstance(key, BaseDeferred):
+                new_coeffs.append((key, value))
+            else:
+                new_constant_term += key * value
+        new_value = LinearPolynomial[int](new_coeffs, new_constant_term)
+        self.coeffs = new_value.coeffs
+        self.constant_term = new_value.constant_term
+
         new_coeffs = []
         new_constant_term = self.constant_term
 
